@@ -2,8 +2,9 @@
  * script of decode / encode (DER, XER, UPER, OER) / validate / print / compare /
  * free calls over distinct structures of the built-in types, sharing only the
  * library's type descriptors.  Every thread's script is first run alone (one
- * after the other) and its complete output log kept; then all N scripts run
- * concurrently and each thread's log must equal its solo log.  Built with
+ * after the other) and its complete output log kept; all N scripts also run
+ * concurrently (that phase comes first, so that first-use initialisation is
+ * raced) and each thread's log must equal its solo log.  Built with
  * -fsanitize=thread, so a data race on library state is reported by TSan
  * (exit code 66); a differing log is reported by this program (exit code 3).
  *
@@ -249,10 +250,11 @@ int main(int ac, char **av) {
         solo[i].idx = conc[i].idx = i;
         solo[i].nops = conc[i].nops = nops;
         solo[i].yield = 0; conc[i].yield = 1;
-        run_job(&solo[i]);                           /* alone */
     }
+    /* concurrent phase first: a lazily initialised table is then first touched by racing threads */
     for(i = 0; i < nthr; i++) pthread_create(&th[i], 0, run_job, &conc[i]);
     for(i = 0; i < nthr; i++) pthread_join(th[i], 0);
+    for(i = 0; i < nthr; i++) run_job(&solo[i]);     /* alone, one after the other */
     for(i = 0; i < nthr; i++) {
         total += solo[i].log.n;
         if(solo[i].log.n != conc[i].log.n || memcmp(solo[i].log.p, conc[i].log.p, solo[i].log.n)) {
